@@ -90,6 +90,66 @@ class Unpicklable:
         return hash(("Unpicklable", self.i))
 
 
+class _OsView:
+    """the os module with kill() disarmed (the pool kills stuck workers by pid; virtual processes have none)"""
+
+    def __getattr__(self, name):
+        import os
+        return getattr(os, name)
+
+    @staticmethod
+    def kill(*a):
+        return None
+
+
+_POOL_MODULES = [None]
+
+
+def pool_modules():
+    """the modules the process pool is implemented in: annet.parallel and every other annet module that holds a reference to
+    the multiprocessing module (a reorganisation may move the worker or the parent loop into private modules of their own)"""
+    if _POOL_MODULES[0] is None:
+        import multiprocessing
+        import sys
+        import annet.parallel as par
+        mods = [par]
+        for name, mod in sorted(sys.modules.items()):
+            if mod is None or mod is par or not name.startswith("annet."):
+                continue
+            try:
+                if any(v is multiprocessing for v in vars(mod).values()):
+                    mods.append(mod)
+            except Exception:  # noqa
+                pass
+        _POOL_MODULES[0] = mods
+        # the frames of all these files are the implementation's state (state de-duplication, E4's abstraction)
+        from mc import sched as sched_mod
+        for m in mods:
+            f = getattr(m, "__file__", None)
+            if f and not sched_mod.in_pool_file(f):
+                sched_mod.POOL_FILES.append(f)
+    return _POOL_MODULES[0]
+
+
+def substitute_primitives(vmp):
+    """in every pool module, the names bound to multiprocessing / time / asyncio / faulthandler / os get the virtual ones;
+    -> [(module, name, original)] for restoring"""
+    import asyncio
+    import faulthandler
+    import multiprocessing
+    import os
+    import time
+    repl = [(multiprocessing, vmp), (time, VTime()), (asyncio, _Nop()), (faulthandler, _Nop()), (os, _OsView())]
+    saved = []
+    for mod in pool_modules():
+        for name, val in list(vars(mod).items()):
+            for real, virtual in repl:
+                if val is real:
+                    saved.append((mod, name, val))
+                    setattr(mod, name, virtual)
+    return saved
+
+
 class Execution:
     """one run of the real code under one schedule"""
 
@@ -110,12 +170,7 @@ class Execution:
         def wrap(args):
             return (WorkerView(args[0]),) + tuple(args[1:])
         vmp = self.vmp = VMp(sched, wrap_args=wrap)
-        saved = (par.mp, par.time, par.asyncio, par.faulthandler, par.os)
-        par.mp = vmp
-        par.time = VTime()
-        par.asyncio = _Nop()
-        par.faulthandler = _Nop()
-        par.os = types.SimpleNamespace(kill=lambda *a: None)
+        saved = substitute_primitives(vmp)
         raising = set(cfg["raising"])
         flaky = {int(i): (k, how) for i, k, how in cfg.get("flaky", [])}
         attempts = collections.Counter()
@@ -185,7 +240,8 @@ class Execution:
         try:
             sched.run(root, "parent")
         finally:
-            par.mp, par.time, par.asyncio, par.faulthandler, par.os = saved
+            for mod, name, val in saved:
+                setattr(mod, name, val)
         return self
 
     # -- oracle ------------------------------------------------------------------------------------
